@@ -957,6 +957,37 @@ def wire_expr(node):
     return None
 
 
+def wire_attrs_spec(node):
+    """the expression of py:attrs: a dict display with string keys, a list display of (string, value) pairs, or
+    an expression of the fragment; None outside"""
+    import ast
+    if isinstance(node, ast.Expression):
+        node = node.body
+
+    def entries(pairs):
+        out = []
+        for k, v in pairs:
+            if not (isinstance(k, ast.Constant) and isinstance(k.value, str)):
+                return None
+            w = wire_expr(v)
+            if w is None:
+                return None
+            out.append([str(k.value), w])
+        return out
+    if isinstance(node, ast.Dict):
+        if any(k is None for k in node.keys):
+            return None
+        e = entries(zip(node.keys, node.values))
+        return None if e is None else [Atom('D')] + e
+    if isinstance(node, ast.List):
+        if not all(isinstance(t, ast.Tuple) and len(t.elts) == 2 for t in node.elts):
+            return None
+        e = entries((t.elts[0], t.elts[1]) for t in node.elts)
+        return None if e is None else [Atom('P')] + e
+    w = wire_expr(node)
+    return None if w is None else [Atom('X'), w]
+
+
 def _assign_name(fn):
     d = getattr(fn, '__defaults__', None)
     if d and isinstance(d[0], str):
@@ -1006,6 +1037,9 @@ def wire_dir(d, num):
             return [num, Atom({'ChooseDirective': 'choose', 'WhenDirective': 'when', 'StripDirective': 'unwrap'}[name]), e]
         if name == 'OtherwiseDirective':
             return [num, Atom('otherwise')]
+        if name == 'AttrsDirective':
+            a = d.expr is not None and wire_attrs_spec(d.expr.ast)
+            return [num, Atom('attrs'), a] if a else other
         if name == 'MatchDirective':
             import re as _re
             if _re.match(r'^[a-z]+$', d.path.source) and set(d.hints) <= {'match_once'}:
@@ -1117,6 +1151,11 @@ class Image(object):
             elif kind is START:
                 if all(isinstance(v, str) for _, v in data[1]):
                     out.append([Atom('O'), evwire.ev(ev)])
+                elif all(isinstance(v, str) or type(v) is list for _, v in data[1]):
+                    # interpolated values: each is a list of TEXT / EXPR events owned by the template -> a cell
+                    out.append([Atom('A'), evwire.qn(data[0]),
+                                [[evwire.qn(n), str(v)] if isinstance(v, str) else [evwire.qn(n), [Atom('t'), self.add_evs(v)]]
+                                 for n, v in data[1]]])
                 else:
                     out.append(Atom('U'))
             else:
